@@ -341,7 +341,9 @@ class Stmts:
             elif isinstance(t, ast.Subscript):
                 tgt(t.value)
             elif isinstance(t, ast.Attribute):
-                pass
+                if isinstance(t.value, ast.Name):
+                    add('$attrsv:' + ast.unparse(t))
+                    add('$attrs:' + t.value.id)
             elif isinstance(t, ast.Starred):
                 tgt(t.value)
         for s in stmts:
@@ -726,12 +728,7 @@ class Stmts:
                                 continue
                             if src.keep is not None:
                                 raise OutOfSubset('starred filtered source', node)
-                            i = z3.Int('i!sd')
-                            s0 = State(dict(s4.env), [])
-                            ev = self.toVal(src.at(i - cur.n, s0), s0)
-                            arr = z3.Lambda([i], z3.If(i < cur.n, z3.Select(cur.arr, i), ev))
-                            s4.add(src.n >= 0)
-                            nxt.append((VListB(arr, cur.n + src.n), s4))
+                            nxt.append((self.concat_list(cur, src, s4), s4))
                 results = nxt
             out = []
             for r, s2 in results:
